@@ -1896,6 +1896,113 @@ fn check_root_seq(krate: Krate, code: u16) -> Outcome {
     Outcome::Pass
 }
 
+// ---------------- a violated field that the document does not write (serde default) -----------------
+#[derive(Deserialize, garde::Validate, validator::Validate, Debug)]
+#[serde(rename_all = "camelCase")]
+struct DfInner {
+    #[garde(length(min = 2))]
+    #[validate(length(min = 2))]
+    first_name: String,
+    #[serde(default)]
+    #[garde(range(min = 1))]
+    #[validate(range(min = 1))]
+    age_years: i32,
+}
+#[derive(Deserialize, garde::Validate, validator::Validate, Debug)]
+struct DfMid {
+    #[garde(dive)]
+    #[validate(nested)]
+    inner: DfInner,
+}
+#[derive(Deserialize, garde::Validate, validator::Validate, Debug)]
+struct DfMid2 {
+    #[garde(dive)]
+    #[validate(nested)]
+    mid: DfMid,
+}
+#[derive(Deserialize, garde::Validate, validator::Validate, Debug)]
+struct DfRoot1 {
+    #[garde(dive)]
+    #[validate(nested)]
+    main: DfInner,
+}
+#[derive(Deserialize, garde::Validate, validator::Validate, Debug)]
+struct DfRoot2 {
+    #[garde(dive)]
+    #[validate(nested)]
+    main: DfMid,
+}
+#[derive(Deserialize, garde::Validate, validator::Validate, Debug)]
+struct DfRoot3 {
+    #[garde(dive)]
+    #[validate(nested)]
+    main: DfMid2,
+}
+fn miette_messages(d: &dyn miette::Diagnostic, out: &mut Vec<String>) {
+    out.push(d.to_string());
+    if let Some(rel) = d.related() {
+        for r in rel {
+            miette_messages(r, out);
+        }
+    }
+}
+/// The violated field is filled by `#[serde(default)]` (it has no position of its own) or is
+/// written in the document (control): the plain rendering and the miette report both name the
+/// failed field - "every reported field path ..." is that of the field, whatever position is
+/// attached to it.
+fn check_defaulted_field(krate: Krate, code: u16) -> Outcome {
+    let depth = (code % 3) as usize + 1;
+    let lead = ((code / 3) % 3) as usize;
+    let written = (code / 9) % 2 == 1;
+    let mut text = String::new();
+    for i in 0..lead {
+        text.push_str(&format!("# lead {i}\n"));
+    }
+    let chain: &[&str] = match depth {
+        1 => &["main"],
+        2 => &["main", "inner"],
+        _ => &["main", "mid", "inner"],
+    };
+    for (i, k) in chain.iter().enumerate() {
+        text.push_str(&format!("{}{k}:\n", "  ".repeat(i)));
+    }
+    let ind = "  ".repeat(chain.len());
+    text.push_str(&format!("{ind}firstName: okay\n"));
+    if written {
+        text.push_str(&format!("{ind}ageYears: 0\n"));
+    }
+    fn run<T: for<'de> Deserialize<'de> + garde::Validate<Context = ()> + validator::Validate + std::fmt::Debug>(krate: Krate, text: &str) -> Option<serde_saphyr::Error> {
+        match krate {
+            Krate::Garde => serde_saphyr::from_str_valid::<T>(text).err(),
+            Krate::Validator => serde_saphyr::from_str_validate::<T>(text).err(),
+        }
+    }
+    let err = match depth {
+        1 => run::<DfRoot1>(krate, &text),
+        2 => run::<DfRoot2>(krate, &text),
+        _ => run::<DfRoot3>(krate, &text),
+    };
+    let Some(e) = err else {
+        return Outcome::Fail(format!("a violated defaulted field is accepted ({krate:?}, text {text:?})"));
+    };
+    let prefix = chain.join(".");
+    let names = [format!("{prefix}.age_years"), format!("{prefix}.ageYears")];
+    let plain = e.without_snippet().to_string();
+    if !names.iter().any(|n| plain.contains(n.as_str())) {
+        return Outcome::Fail(format!("defaulted field ({krate:?}, written {written}): the rendered error does not name the failed field {:?}: {plain:?} (text {text:?})", names[0]));
+    }
+    let report = serde_saphyr::miette::to_miette_report(&e, &text, "f.yaml");
+    let mut msgs = vec![];
+    miette_messages(report.as_ref(), &mut msgs);
+    if !msgs.iter().any(|m| names.iter().any(|n| m.contains(&format!("`{n}`")))) {
+        return Outcome::Fail(format!(
+            "defaulted field ({krate:?}, written {written}): no diagnostic of the miette report names the failed field `{}`; messages {msgs:?} (text {text:?})",
+            names[0]
+        ));
+    }
+    Outcome::Pass
+}
+
 /// `n` copies of one small document, produced on the fly
 struct Repeat {
     unit: &'static [u8],
@@ -2000,6 +2107,9 @@ impl Property for C18 {
         if c.long_mib > 0 {
             return check_long_stream(c.krate, c.long_mib);
         }
+        if c.root_seq > 100 {
+            return check_defaulted_field(c.krate, c.root_seq - 101);
+        }
         if c.root_seq > 0 {
             return check_root_seq(c.krate, c.root_seq - 1);
         }
@@ -2074,6 +2184,16 @@ impl Property for C18 {
             }
         }
         ctx.subspace("root sequence of 3 structs x violated item x violated field x 0-2 leading lines x str / reader x 2 crates", 72, true);
+        // --- a violated field that is filled by its serde default (no position of its own)
+        for krate in [Krate::Garde, Krate::Validator] {
+            for code in 0..18u16 {
+                if ctx.mine(11 + code as u64) {
+                    let c = Case { krate, ep: Ep::Str, opt: OptV::Default, layout: base_layout(), docs: vec![], strict: true, long_mib: 0, root_seq: 101 + code };
+                    ctx.case("defaulted-field", &c, true);
+                }
+            }
+        }
+        ctx.subspace("violated field filled by its serde default / written x nesting depth 1-3 x 0-2 leading lines x 2 crates, plain and miette rendering", 36, true);
         let classes: RefCell<BTreeMap<String, u64>> = RefCell::new(BTreeMap::new());
         // --- enumerated: one violated leaf of a fixed document x supply x entry point x crate x style
         let base = base_doc();
